@@ -76,6 +76,9 @@ Free == /\ Script = <<>> /\ Len(hist) < MaxOps
            \* a list observation (ObserveElements / ObserveCap / ObserveExtensionElements); the EMPTY list observes nothing and, as in
            \* plonky2 (only observe_element clears the outputs), leaves the pending outputs alone
            \/ \E n \in {0, 3} : DoObserve("elements", "", [j \in 1..n |-> Sym("s", nsym + j - 1)]) /\ nsym' = nsym + n
+           \* a list of n extension elements (ObserveExtensionElements / ObserveOpenings): 2n limbs in order - five of them cross a
+           \* block of the sponge (RATE = 8) and end inside the next one, so a permutation happens in the middle of the list
+           \/ \E n \in {2, 5} : DoObserve("extelements", "", [j \in 1..(2 * n) |-> Sym("s", nsym + j - 1)]) /\ nsym' = nsym + 2 * n
            \/ \E k \in 1..3 : DoSqueeze("challenges", "", k) /\ nsym' = nsym
            \/ DoSqueeze("extchallenge", "", 2) /\ nsym' = nsym
            \/ DoSqueeze("gethash", "", 4) /\ nsym' = nsym
